@@ -33,14 +33,17 @@ end
 
 /-- one input: standalone the converter sees the tokens it is handed; in a class every field that uses the
     converter — also when several fields share the one converter object — is converted with the instance and with
-    ITS OWN field, in definition order (`__init__` stops at the first exception; assignments are independent) -/
+    ITS OWN field, in definition order (`__init__` stops at the first exception; assignments are independent; on assignment the
+    converter runs iff the class's hooks include `setters.convert` — a field without a converter stores the value) -/
 def refStep (c : Case) (v : Val) (tr : Trace) : List String × Trace :=
   match c.mode with
   | .standalone =>
     let r := ref c.tree c.inst c.field v tr
     ([r.1.render], r.2)
   | .init | .initDefault => initRun (fun name v tr => ref c.tree selfText (fieldText name) v tr) c.flds v tr
-  | .assign | .setter => assignFields (fun name v tr => ref c.tree selfText (fieldText name) v tr) c.flds v tr
+  | .assign =>
+    assignFields c.converts (fun name v tr => ref c.tree selfText (fieldText name) v tr) c.flds v tr
+  | .setter => assignFields true (fun name v tr => ref c.tree selfText (fieldText name) v tr) c.flds v tr
 
 def expected (c : Case) : Obs :=
   let r := runInputs (refStep c) c.inputs []
